@@ -64,17 +64,20 @@ SchemaValidator::SchemaValidator( XMLErrorReporter* const errReporter
     , fSeenNonWhiteSpace(false)
     , fSeenId(false)
     , fTypeStack(0)
+    , fNilStack(0)
     , fMostRecentAttrValidator(0)
     , fErrorOccurred(false)
     , fElemIsSpecified(false)
 {
     fTypeStack = new (fMemoryManager) ValueStackOf<ComplexTypeInfo*>(8, fMemoryManager);
+    fNilStack = new (fMemoryManager) ValueStackOf<bool>(8, fMemoryManager);
 }
 
 SchemaValidator::~SchemaValidator()
 {
     delete fXsiType;
     delete fTypeStack;
+    delete fNilStack;
 
     if (fNotationBuf)
         delete fNotationBuf;
@@ -104,6 +107,9 @@ bool SchemaValidator::checkContent (XMLElementDecl* const elemDecl
     //
     // the top of the type stack always knows best...
     ComplexTypeInfo* currType = fTypeStack->pop();
+
+    // the xsi:nil state recorded when this element started
+    fNil = fNilStack->pop();
 
     const SchemaElementDecl::ModelTypes modelType = (currType)
             ? (SchemaElementDecl::ModelTypes)(currType->getContentType())
@@ -340,6 +346,7 @@ void SchemaValidator::reset()
     fSeenNonWhiteSpace = false;
     fSeenId = false;
 	fTypeStack->removeAllElements();
+	fNilStack->removeAllElements();
     delete fXsiType;
     fXsiType = 0;
     fCurrentDatatypeValidator = 0;
@@ -747,8 +754,10 @@ void SchemaValidator::validateElement(const   XMLElementDecl*  elemDef)
         fErrorOccurred = true;
     }
 
-    // xsi:nil has been looked at for this element; it must not be taken
-    // for an attribute of the next element
+    // Keep this element's xsi:nil state until its content is checked; the
+    // elements in between have a state of their own.
+    fNilStack->push(fNilFound && fNil);
+    fNil = false;
     fNilFound = false;
 
     fDatatypeBuffer.reset();
